@@ -61,8 +61,11 @@ Resolve(d) ==
   /\ pc[d] = "new"
   /\ LET h == host[d] IN
      CASE ResolveOf[h] = "ok" ->
-            /\ rot' = [rot EXCEPT ![h] = @ + 1] /\ idx' = [idx EXCEPT ![d] = rot[h] + 1]
-            /\ used' = [used EXCEPT ![h] = @ \cup {rot[h] + 1}]
+            \* the next index of the cache entry; dials that resolve the host concurrently for the
+            \* first time each fill the cache with an entry of their own, so an index may repeat
+            /\ \E k \in 1..(rot[h] + 1) :
+                 /\ idx' = [idx EXCEPT ![d] = k] /\ used' = [used EXCEPT ![h] = @ \cup {k}]
+            /\ rot' = [rot EXCEPT ![h] = @ + 1]
             /\ pc' = [pc EXCEPT ![d] = "try"] /\ UNCHANGED result
        [] ResolveOf[h] = "error" -> Finish(d, "resolveerr") /\ UNCHANGED <<rot, idx, used>>
        [] ResolveOf[h] = "hang" -> expired[d] /\ Finish(d, "resolveerr") /\ UNCHANGED <<rot, idx, used>>
@@ -145,8 +148,8 @@ Rotation == \A d \in Dials :
               /\ \A i \in 1..Len(order[d]) : order[d][i] = (idx[d] + i - 1) % NAddrs(d)
               /\ Len(order[d]) <= NAddrs(d)
               /\ result[d] = "failed" => (Len(order[d]) = NAddrs(d) /\ tried[d] = NAddrs(d))
-\* start indices are handed out once each (successive dials start at successive addresses)
-FreshIndex == \A h \in Hosts : Cardinality(used[h]) = rot[h]
+\* start indices come from the per-host counter: never beyond the number of resolutions so far
+FreshIndex == \A h \in Hosts : \A k \in used[h] : k >= 1 /\ k <= rot[h]
 \* C41(c): the result is the connection, a (wrapped) upstream error after all addresses, the
 \* resolver's error, or ErrDialTimeout - and the latter only when the deadline has passed
 Results == \A d \in Dials :
